@@ -38,9 +38,11 @@ def tape_case(ctx, res, files, verbose=True):
         want = [f"#{first}", f"{len(c)} octets", f"{nb} blocks."]
         if lc.split("\t")[3:] != want or ll.split("\t")[3:] != want:
             res.violate("tape", "verbose size / blocks / position wrong", case, {"create": lc, "list": ll, "want": want}, {"clause": "tape_facts"})
-        stem, ext, _, _, _ = T.split_source(n)
-        if len(stem) <= 8 and len(ext) <= 3 and lc != ll:
+        if lc != ll:
             res.violate("tape", "create and list report the same file differently", case, {"create": lc, "list": ll}, {"clause": "create_eq_list"})
+        if lc.split("\t")[0] != T.catalog_name(n) or ll.split("\t")[0] != T.catalog_name(n):
+            res.violate("tape", "a file is not reported under its catalog name", case,
+                        {"create": lc.split("\t")[0], "list": ll.split("\t")[0], "catalog": T.catalog_name(n)}, {"clause": "catalog_name"})
         first += nb + 2
 
 
